@@ -82,14 +82,15 @@ type c10AssocObs struct {
 }
 
 type c10Obs struct {
-	Assocs     []c10AssocObs  `json:"assocs"`
-	Steps      []string       `json:"steps"`
-	Goroutines map[string]int `json:"goroutines"`  // census before the final probes
-	StopMs     int64          `json:"stop_ms"`     // time for Stop()+Done() to return, -1 if not stopped
-	DelAtDone  map[string]int `json:"del_at_done"` // delete counts at the moment Done() returned
-	ExitCalled int            `json:"exit_called"`
-	Hang       string         `json:"hang,omitempty"`
-	Dump       string         `json:"dump,omitempty"`
+	Assocs     []c10AssocObs       `json:"assocs"`
+	Steps      []string            `json:"steps"`
+	Goroutines map[string]int      `json:"goroutines"`  // census before the final probes
+	StopMs     int64               `json:"stop_ms"`     // time for Stop()+Done() to return, -1 if not stopped
+	DelAtDone  map[string]int      `json:"del_at_done"` // delete counts at the moment Done() returned
+	ExitCalled int                 `json:"exit_called"`
+	DpLog      map[string][]string `json:"dp_log"` // F-SEID -> datapath commands in order
+	Hang       string              `json:"hang,omitempty"`
+	Dump       string              `json:"dump,omitempty"`
 }
 
 var c10EventsMu sync.Mutex
@@ -115,6 +116,7 @@ func c10Event(v map[string]interface{}) {
 type c10Datapath struct {
 	mu       sync.Mutex
 	dels     map[uint64]int
+	log      map[uint64][]string // every command per F-SEID, in order
 	other    int
 	slow     time.Duration
 	gate     chan struct{} // when non-nil every delete waits for the gate
@@ -135,15 +137,18 @@ func (d *c10Datapath) SessionStats(pc *PfcpNodeCollector, ch chan<- prometheus.M
 }
 
 func (d *c10Datapath) SendMsgToUPF(method upfMsgType, all PacketForwardingRules, newRules PacketForwardingRules) uint8 {
-	if method != upfMsgTypeDel {
-		d.mu.Lock()
-		d.other++
-		d.mu.Unlock()
-		return ie.CauseRequestAccepted
-	}
 	var id uint64
 	if len(all.pdrs) > 0 {
 		id = all.pdrs[0].fseID
+	} else if len(newRules.pdrs) > 0 {
+		id = newRules.pdrs[0].fseID
+	}
+	if method != upfMsgTypeDel {
+		d.mu.Lock()
+		d.other++
+		d.log[id] = append(d.log[id], method.String())
+		d.mu.Unlock()
+		return ie.CauseRequestAccepted
 	}
 	select {
 	case d.inDelete <- id:
@@ -157,8 +162,19 @@ func (d *c10Datapath) SendMsgToUPF(method upfMsgType, all PacketForwardingRules,
 	}
 	d.mu.Lock()
 	d.dels[id]++
+	d.log[id] = append(d.log[id], method.String())
 	d.mu.Unlock()
 	return ie.CauseRequestAccepted
+}
+
+func (d *c10Datapath) fullLog() map[string][]string {
+	d.mu.Lock()
+	defer d.mu.Unlock()
+	out := map[string][]string{}
+	for k, v := range d.log {
+		out[strconv.FormatUint(k, 10)] = append([]string(nil), v...)
+	}
+	return out
 }
 
 func (d *c10Datapath) snapshot() map[string]int {
@@ -564,6 +580,20 @@ func (r *c10Run) stepConn(s c10Step) {
 		}
 	case "setup":
 		a.conn.q <- c10Setup()
+	case "sess_delete": // Session Deletion Request for the n-th preloaded session, in flight
+		a.conn.q <- c10Bytes(message.NewSessionDeletionRequest(0, 0, c10Fseid(s.A, s.N), c10NextSeq(), 0))
+	case "sess_modify":
+		a.conn.q <- c10Bytes(message.NewSessionModificationRequest(0, 0, c10Fseid(s.A, s.N), c10NextSeq(), 0,
+			ie.NewUpdateFAR(ie.NewFARID(1), ie.NewApplyAction(0x01))))
+	case "sess_establish": // a new session (needs the association: send "setup" first)
+		cp := uint64(900000 + s.A*100 + s.N)
+		a.conn.q <- c10Bytes(message.NewSessionEstablishmentRequest(0, 0, 0, c10NextSeq(), 0,
+			ie.NewNodeID("10.9.9.9", "", ""), ie.NewFSEID(cp, net.ParseIP("10.9.9.9"), nil),
+			ie.NewCreatePDR(ie.NewPDRID(1), ie.NewPrecedence(100),
+				ie.NewPDI(ie.NewSourceInterface(ie.SrcInterfaceAccess), ie.NewFTEID(0x01, uint32(0x5000+cp), net.ParseIP("198.18.0.1"), nil, 0)),
+				ie.NewOuterHeaderRemoval(0, 0), ie.NewFARID(1)),
+			ie.NewCreateFAR(ie.NewFARID(1), ie.NewApplyAction(0x02),
+				ie.NewForwardingParameters(ie.NewDestinationInterface(ie.DstInterfaceCore)))))
 	case "wait": // until association a has ended completely
 		r.waitFor(fmt.Sprintf("ended:%d", s.A), c10Dur(s.Ms, 8000), func() bool { return r.ended(a) })
 	case "wait_delete": // until a delete command is being executed by the (gated) datapath
@@ -660,6 +690,7 @@ func (r *c10Run) finishConn() c10Obs {
 		obs.Assocs = append(obs.Assocs, ao)
 	}
 	obs.Steps = r.steps
+	obs.DpLog = r.dp.fullLog()
 	obs.ExitCalled = int(atomic.LoadInt32(&r.dp.exit))
 	return obs
 }
@@ -911,6 +942,7 @@ func (r *c10Run) finishNode() c10Obs {
 		obs.Assocs = append(obs.Assocs, ao)
 	}
 	obs.Steps = r.steps
+	obs.DpLog = r.dp.fullLog()
 	obs.ExitCalled = int(atomic.LoadInt32(&r.dp.exit))
 	for _, a := range r.assocs {
 		atomic.StoreInt32(&a.peerStop, 1)
@@ -926,7 +958,7 @@ func init() {
 		if err := json.Unmarshal(raw, &sc); err != nil {
 			return nil, err
 		}
-		dp := &c10Datapath{dels: map[uint64]int{}, slow: time.Duration(sc.SlowDpMs) * time.Millisecond,
+		dp := &c10Datapath{dels: map[uint64]int{}, log: map[uint64][]string{}, slow: time.Duration(sc.SlowDpMs) * time.Millisecond,
 			inDelete: make(chan uint64, 4096)}
 		if sc.GateDp {
 			dp.gate = make(chan struct{})
